@@ -10,11 +10,12 @@
    ErrDecimal: once an error is held every later call leaves all registers and flags untouched, for any
    program (induction over the method sequence); otherwise the wrapper performs exactly the Context
    operation of the same name and accumulates its flags.
-   The composite functions (Sqrt, Cbrt, Exp, Ln, Log10, Pow) are not modelled yet: for them the property
-   is decided by the trap differential on the implementation (same call with and without the trap set)
-   and by the reference-interpreter comparison of ErrDecimal programs. *)
+   Sqrt and Cbrt (modelled in full, Model/Roots.v): the two theorems before the ErrDecimal block.  Exp, Ln,
+   Log10 and Pow are not modelled beyond their prologues: for them the property is decided by the trap
+   differential on the implementation (same call with and without the trap set) and by the
+   reference-interpreter comparison of ErrDecimal programs. *)
 From Coq Require Import ZArith Bool List.
-From Apd Require Import Generated.Consts Model.Base Model.NumDigits Model.Decimal Model.Context Model.ErrDec Proofs.TrapsProofs.
+From Apd Require Import Generated.Consts Model.Base Model.NumDigits Model.Decimal Model.Context Model.ErrDec Proofs.TrapsProofs Model.Roots Proofs.RootsTraps.
 Open Scope Z_scope.
 
 Theorem C03_error_nil_iff traps r : go_error traps r = ENone <->
@@ -68,6 +69,18 @@ Theorem C03_ceil_floor est c t x :
   strip (ctx_ceil est (with_traps c t) x) = strip (ctx_ceil est c x) /\ strip (ctx_floor est (with_traps c t) x) = strip (ctx_floor est c x).
 Proof. exact (conj (ceil_indep est c t x) (floor_indep est c t x)). Qed.
 Print Assumptions C03_ceil_floor.
+
+(* the composite functions that are modelled in full.  Cbrt iterates under a private context: value and
+   Condition never depend on the caller's traps.  Sqrt runs every internal step under the caller's traps through
+   an ErrDecimal (the first trapped condition ends the computation): whenever the call returns NO error, the
+   call with an empty trap set returns the same value and the same Condition. *)
+Theorem C03_cbrt est c t x : strip (ctx_cbrt est (with_traps c t) x) = strip (ctx_cbrt est c x).
+Proof. exact (cbrt_indep est c t x). Qed.
+Print Assumptions C03_cbrt.
+Theorem C03_sqrt_nil_error_means_untrapped_result est c x r : ctx_sqrt est c x = Ok r -> rerr r = ENone ->
+  strip (ctx_sqrt est (with_traps c c0) x) = Ok (rdec r, rcond r).
+Proof. exact (sqrt_untrapped est c x r). Qed.
+Print Assumptions C03_sqrt_nil_error_means_untrapped_result.
 
 (* ErrDecimal over arbitrary method sequences *)
 Theorem C03_errdecimal_sticky est c p s : ed_err s <> ENone -> ed_run est c s p = Ok s.
